@@ -120,4 +120,13 @@ PROPS = {
         "scope": "AST cache hit rule (cache_ast.go) and the structural part of its key (js_parser/css_parser Options.Equal) over field lists regenerated from the source; file-system cache, resolver caches and watch mode are reached by the rebuild-vs-fresh search only",
         "assumptions": ["parse is a function of (source text, options)", "field lists are extracted by go/ast from the current source (harness/cmd/extract/cachekey.go)"],
     },
+    "C11": {
+        "lean_modules": ["EsbuildModel.Props.C11"],
+        "theorems": ["EsbuildModel.C11.matching_pattern_keys_never_tie"],
+        "gen_facts": [],
+        "kernels": [("exports", 4000, 300000)],
+        "searches": [("c11-resolve", 960, 30000)],
+        "scope": "subpath-pattern selection (esmPackageImportsExportsResolve loop + expansionKeysArray.Less) modelled; target resolution (conditions, arrays, null, invalid targets), file probing and node_modules lookup are decided by the three-way search against Node itself",
+        "assumptions": ["Node 20 (createRequire().resolve / import.meta.resolve) is the reference", "esbuild is run with platform=node, mainFields=[main], conditions=[node-addons] (Node's own set)"],
+    },
 }
